@@ -616,11 +616,18 @@ def _peak_is_too_narrow(
     return (fwhm < fit_requirements.min_peak_width_factor * bin_width).value
 
 
+def _n_points_in_tail(data: sc.DataArray, fit_parameters: FitParameters) -> int:
+    # /2 because the range is split between beginning and end of window
+    n = int(len(data) * fit_parameters.guess_background_fraction / 2)
+    # At least one point in each tail and in the bulk.
+    # (n == 0 would select everything with data[-n:] and nothing with data[n:-n].)
+    return min(max(n, 1), (len(data) - 1) // 2)
+
+
 def _guess_background(
     data: sc.DataArray, model: Model, fit_parameters: FitParameters
 ) -> dict[str, sc.Variable]:
-    # 2* because the range is split between beginning and end of window
-    n = int(len(data) * fit_parameters.guess_background_fraction / 2)
+    n = _n_points_in_tail(data, fit_parameters)
     tails = sc.concat([data[:n], data[-n:]], dim=data.dim)
     return model.guess(tails)
 
@@ -628,8 +635,7 @@ def _guess_background(
 def _guess_peak(
     data: sc.DataArray, model: Model, fit_parameters: FitParameters
 ) -> dict[str, sc.Variable]:
-    # 2* to match the range in _guess_background
-    n = int(len(data) * fit_parameters.guess_background_fraction / 2)
+    n = _n_points_in_tail(data, fit_parameters)
     bulk = data[n:-n]
     return model.guess(bulk)
 
